@@ -52,6 +52,7 @@ import (
 	"sort"
 	"strings"
 	"sync"
+	"sync/atomic"
 	"time"
 
 	"github.com/fxamacker/cbor/v2"
@@ -77,6 +78,8 @@ type atpsSession struct {
 	Stream  string       `json:"stream"`
 	Note    string       `json:"note,omitempty"`
 	Actions []atpsAction `json:"actions"`
+	// the first InitPanics calls of step "pinit"'s per-run initializer panic
+	InitPanics int `json:"init_panics,omitempty"`
 }
 
 // what one session produced
@@ -121,6 +124,8 @@ type atpsRunner struct {
 	gateMu  sync.Mutex
 	openAll bool
 	quiet   bool // stress child: handlers neither log nor wait
+	// number of calls of step "pinit"'s initializer that still have to panic
+	initBudget int32
 	runIDs  map[string]int
 	entered map[int]bool
 	exited  map[int]bool
@@ -264,7 +269,17 @@ func (r *atpsRunner) plugin() *schema.CallableSchema {
 	withInit := schema.NewCallableStepWithSignals[*atpsStepData, atpsIn]("init", inSchema(), outputs(),
 		map[string]schema.CallableSignal{"sig": schema.NewCallableSignal[*atpsStepData, atpsSigIn]("sig", sigSchema(), nil, r.sigHandler2)},
 		nil, nil, func() *atpsStepData { return &atpsStepData{} }, r.stepHandler2)
-	return schema.NewCallableSchema(hello, withInit)
+	// "pinit": like "init", but the per-run initializer panics while the session's budget lasts
+	// (the panic happens inside CallStep / CallSignal, under the step's initializer mutex)
+	panicInit := schema.NewCallableStepWithSignals[*atpsStepData, atpsIn]("pinit", inSchema(), outputs(),
+		map[string]schema.CallableSignal{"sig": schema.NewCallableSignal[*atpsStepData, atpsSigIn]("sig", sigSchema(), nil, r.sigHandler2)},
+		nil, nil, func() *atpsStepData {
+			if atomic.AddInt32(&r.initBudget, -1) >= 0 {
+				panic("initializer panic requested")
+			}
+			return &atpsStepData{}
+		}, r.stepHandler2)
+	return schema.NewCallableSchema(hello, withInit, panicInit)
 }
 
 // ---------------------------------------------------------------------------------------------
@@ -403,6 +418,7 @@ func atpsRunSession(sess *atpsSession, to atpsTimeouts) (out atpsOutcome) {
 	outR, outW := io.Pipe()
 	ctx, cancel := context.WithCancel(context.Background())
 	defer cancel()
+	r.initBudget = int32(sess.InitPanics)
 	plugin := r.plugin()
 
 	returned := make(chan int, 1)
@@ -719,6 +735,9 @@ func atpsRunSession(sess *atpsSession, to atpsTimeouts) (out atpsOutcome) {
 
 type atpsGen struct {
 	r *rand.Rand
+	// per session: run IDs whose work-start named an unknown step; whether step "pinit" was used
+	unkRuns   []string
+	usedPinit bool
 }
 
 func atpsEnc(x any) []byte {
@@ -770,8 +789,12 @@ func (g *atpsGen) message(idx int, runs *[]string) (b []byte, gated bool, note s
 		return (*runs)[g.r.Intn(len(*runs))]
 	}
 	step := "hello"
-	if g.r.Intn(3) == 0 {
+	switch g.r.Intn(7) {
+	case 0, 1:
 		step = "init"
+	case 2:
+		step = "pinit"
+		g.usedPinit = true
 	}
 	beh := atpsBehs[g.r.Intn(len(atpsBehs))]
 	switch k := g.r.Intn(100); {
@@ -783,7 +806,9 @@ func (g *atpsGen) message(idx int, runs *[]string) (b []byte, gated bool, note s
 		}
 		return atpsEnc(atpsWS(newRun(), step, fmt.Sprintf("n%d", idx), beh, idx)), true, "ws:" + beh
 	case k < 42: // unknown step
-		return atpsEnc(atpsWS(newRun(), "no-such-step", "x", beh, idx)), true, "ws-unknown-step"
+		run := newRun()
+		g.unkRuns = append(g.unkRuns, run)
+		return atpsEnc(atpsWS(run, "no-such-step", "x", beh, idx)), true, "ws-unknown-step"
 	case k < 45: // input rejected by the schema
 		m := atpsWS(newRun(), step, "x", beh, idx)
 		delete(m["data"].(map[string]any)["config"].(map[string]any), "name")
@@ -845,6 +870,14 @@ func (g *atpsGen) message(idx int, runs *[]string) (b []byte, gated bool, note s
 	case k < 94:
 		return atpsEnc(atpsClientDone()), false, "client-done"
 	default:
+		// a signal to a run whose work-start named an unknown step (the run ID is in runningSteps)
+		if len(g.unkRuns) > 0 {
+			run := g.unkRuns[g.r.Intn(len(g.unkRuns))]
+			if g.r.Intn(2) == 0 {
+				return atpsEnc(atpsSig(run, "sig", "ok")), false, "sig-to-unknown-step-run"
+			}
+			return atpsEnc(atpsSig(run, "no-such-signal", "ok")), false, "unknown-sig-to-unknown-step-run"
+		}
 		return atpsEnc(atpsWS(newRun(), step, fmt.Sprintf("n%d", idx), "ok", idx)), true, "ws:ok"
 	}
 }
@@ -852,6 +885,7 @@ func (g *atpsGen) message(idx int, runs *[]string) (b []byte, gated bool, note s
 // grammar session: messages, releases and faults interleaved at random
 func (g *atpsGen) grammar(id int, maxMsgs int) *atpsSession {
 	s := &atpsSession{ID: id, Stream: "grammar"}
+	g.unkRuns, g.usedPinit = nil, false
 	var runs []string
 	var notes []string
 	s.Actions = append(s.Actions, atpsAction{Op: "send", Bytes: []byte{0xf6}})
@@ -925,6 +959,10 @@ func (g *atpsGen) grammar(id int, maxMsgs int) *atpsSession {
 		s.Actions = append(s.Actions, atpsAction{Op: "closeInput"})
 		s.Actions = append(s.Actions, atpsAction{Op: "settle"})
 	}
+	if g.usedPinit {
+		s.InitPanics = g.r.Intn(3)
+		notes = append(notes, fmt.Sprintf("init-panics=%d", s.InitPanics))
+	}
 	s.Note = strings.Join(notes, ",")
 	return s
 }
@@ -981,6 +1019,24 @@ func atpsDirected(nextID func() int) []*atpsSession {
 		mk("signal to a step with step data", send(atpsWS("r1", "init", "a", "ok", 1)), send(atpsSig("r1", "sig", "ok")), atpsAction{Op: "settle"}, rel(1)),
 		mk("panicking signal handler", send(atpsWS("r1", "init", "a", "ok", 1)), send(atpsSig("r1", "sig", "panic")), atpsAction{Op: "settle"}, rel(1)),
 		mk("signal after client-done race", send(atpsWS("r1", "hello", "a", "ok", 1)), send(atpsSig("r1", "sig", "panic")), send(atpsClientDone()), rel(1)),
+	)
+	// a signal to a run whose work-start named an unknown step: the run ID is recorded in
+	// runningSteps before the step ID is validated
+	out = append(out,
+		mk("unknown step, then a known signal to that run", send(atpsWS("r1", "no-such-step", "a", "ok", 1)), atpsAction{Op: "settle"}, send(atpsSig("r1", "sig", "ok")), atpsAction{Op: "settle"}, send(atpsClientDone())),
+		mk("unknown step, then an unknown signal to that run", send(atpsWS("r1", "no-such-step", "a", "ok", 1)), atpsAction{Op: "settle"}, send(atpsSig("r1", "no-such-signal", "ok")), atpsAction{Op: "settle"}, send(atpsClientDone())),
+		mk("unknown step and signals to that run, pipelined with a good run", atpsAction{Op: "send", Bytes: append(append(append(atpsEnc(atpsWS("r1", "no-such-step", "a", "ok", 1)), atpsEnc(atpsWS("r2", "hello", "b", "ok", 2))...), atpsEnc(atpsSig("r1", "sig", "ok"))...), atpsEnc(atpsSig("r2", "sig", "ok"))...)}, rel(2)),
+	)
+	// the per-run initializer of a step panics (inside CallStep / CallSignal, under the step's
+	// initializer mutex): that run is answered with a step-fatal error, everything after it goes on
+	withInit := func(n int, x *atpsSession) *atpsSession { x.InitPanics = n; return x }
+	out = append(out,
+		withInit(1, mk("initializer panics: alone", send(atpsWS("r1", "pinit", "a", "ok", 1)), atpsAction{Op: "settle"}, send(atpsClientDone()))),
+		withInit(1, mk("initializer panics: then another run of the step", send(atpsWS("r1", "pinit", "a", "ok", 1)), atpsAction{Op: "settle"}, send(atpsWS("r2", "pinit", "b", "ok", 2)), atpsAction{Op: "settle"}, rel(2), send(atpsClientDone()))),
+		withInit(1, mk("initializer panics: first of several pipelined runs", atpsAction{Op: "send", Bytes: append(append(atpsEnc(atpsWS("r1", "pinit", "a", "ok", 1)), atpsEnc(atpsWS("r2", "pinit", "b", "errout", 2))...), atpsEnc(atpsWS("r3", "pinit", "c", "undeclared", 3))...)}, atpsAction{Op: "settle"}, rel(1), rel(2), rel(3), send(atpsClientDone()))),
+		withInit(1, mk("initializer panics: then signalled", send(atpsWS("r1", "pinit", "a", "ok", 1)), atpsAction{Op: "settle"}, send(atpsWS("r2", "pinit", "b", "ok", 2)), send(atpsSig("r2", "sig", "ok")), send(atpsSig("r1", "sig", "ok")), atpsAction{Op: "settle"}, rel(2), send(atpsClientDone()))),
+		withInit(2, mk("initializer panics in the step and again in its signal's goroutine", send(atpsWS("r1", "pinit", "a", "ok", 1)), atpsAction{Op: "settle"}, send(atpsSig("r1", "sig", "ok")), atpsAction{Op: "settle"}, send(atpsWS("r2", "pinit", "b", "ok", 3)), rel(3), send(atpsClientDone()))),
+		withInit(2, mk("initializer panics twice, third run fine, EOF", send(atpsWS("r1", "pinit", "a", "ok", 1)), send(atpsWS("r2", "pinit", "b", "ok", 2)), send(atpsWS("r3", "pinit", "c", "ok", 3)), atpsAction{Op: "closeInput"}, rel(1), rel(2), rel(3))),
 	)
 	// duplicate run IDs
 	out = append(out,
@@ -1225,21 +1281,44 @@ func atpsCmd(a Args) {
 		streams = "directed,grammar,truncate,corrupt,stress"
 	}
 	if a.Replay != "" {
-		// replay: the session scripts of an earlier run (sessions.jsonl)
-		f, err := os.Open(a.Replay)
+		// replay: the session scripts of an earlier run (sessions.jsonl), or a finding / replay file
+		// whose detail carries the session script
+		add := func(b []byte) bool {
+			var x atpsSession
+			if json.Unmarshal(b, &x) == nil && len(x.Actions) > 0 {
+				x.ID = nextID()
+				sessions = append(sessions, &x)
+				return true
+			}
+			return false
+		}
+		fromFinding := func(b []byte) bool {
+			var fd struct {
+				Detail []string `json:"detail"`
+			}
+			ok := false
+			if json.Unmarshal(b, &fd) == nil {
+				for _, d := range fd.Detail {
+					if strings.HasPrefix(d, "{") && add([]byte(d)) {
+						ok = true
+					}
+				}
+			}
+			return ok
+		}
+		whole, err := os.ReadFile(a.Replay)
 		if err != nil {
 			panic(err)
 		}
-		sc := bufio.NewScanner(f)
-		sc.Buffer(make([]byte, 1<<20), 1<<26)
-		for sc.Scan() {
-			var x atpsSession
-			if json.Unmarshal(sc.Bytes(), &x) == nil && len(x.Actions) > 0 {
-				x.ID = nextID()
-				sessions = append(sessions, &x)
+		if !fromFinding(whole) {
+			sc := bufio.NewScanner(bytes.NewReader(whole))
+			sc.Buffer(make([]byte, 1<<20), 1<<26)
+			for sc.Scan() {
+				if !add(sc.Bytes()) {
+					fromFinding(sc.Bytes())
+				}
 			}
 		}
-		f.Close()
 	} else {
 		for _, st := range strings.Split(streams, ",") {
 			switch st {
@@ -1394,7 +1473,8 @@ func atpsCmd(a Args) {
 			s.stats["ev:"+fmt.Sprint(e["e"])]++
 		}
 		for _, what := range o.Findings {
-			s.finding(Finding{Prop: "C07", What: what, Cases: []int{id}, Detail: []string{"session " + fmt.Sprint(x.ID), x.Stream + ": " + x.Note}})
+			script, _ := json.Marshal(x)
+			s.finding(Finding{Prop: "C07", What: what, Cases: []int{id}, Detail: []string{"session " + fmt.Sprint(x.ID), x.Stream + ": " + x.Note, string(script)}})
 		}
 	}
 	s.stats["sessions"] = len(sessions)
